@@ -356,8 +356,18 @@ class Engine:
         exp = []
         for sel in rec.spec["sels"]:
             mode = sel.get("mode") or ("immediate" if sel.get("focus") else "total")
-            if mode == "immediate":
-                for i, d in msel.immediate(sel, self.sim.tr, lo, hi, recv_ok=self._recv_ok(sel)):
+            if sel.get("wrap"):
+                for i, d in msel.wrapper(sel, self.sim.tr, lo, hi):
+                    exp.append((i, d))
+                    self.sim.reach("wrapper_event")
+            elif mode == "immediate":
+                imm = msel.immediate(sel, self.sim.tr, lo, hi, recv_ok=self._recv_ok(sel))
+                seen_idx = {}
+                for i, d in imm:
+                    seen_idx[i] = seen_idx.get(i, 0) + 1
+                if any(n > 1 for n in seen_idx.values()):
+                    self.sim.reach("binding_with_several_embeddings")
+                for i, d in imm:
                     for lv in sel["levels"]:
                         if lv.get("recv"):
                             # the event reports the receiver under the receiver parameter's name
@@ -365,10 +375,18 @@ class Engine:
                     if rec.spec.get("raw"):
                         d = {k: {"values": [v]} for k, v in d.items()}
                     exp.append((i, d))
+            elif sel.get("focus"):
+                for i, d in msel.total_focus(sel, self.sim.tr, lo, hi):
+                    d = {k: {"values": v} for k, v in d.items()}
+                    exp.append((i, d))
+                    self.sim.reach("forced_total_record")
             else:
                 for i, d in msel.total(sel, self.sim.tr, lo, hi):
                     d = {k: {"values": v} for k, v in d.items()}
                     exp.append((i, d))
+                    self.sim.reach("total_record")
+                    if any(len(v["values"]) > 1 for v in d.values()):
+                        self.sim.reach("total_record_multi_valued")
         exp.sort(key=lambda t: t[0])
         return exp
 
